@@ -404,9 +404,12 @@ def run_history(drv, dev, steps, shipped=False, compare=False):
     old = _patch_parsers()
     res = []
     last_dump = None
+    planned = False
     try:
         for st in steps:
-            device.faults(st.get('faults') or [])
+            if st.get('faults') or planned:
+                device.faults(st.get('faults') or [])
+                planned = bool(st.get('faults'))
             device.snap()
             cur = dict(dev, frus=_frus_of_dump(last_dump)) if last_dump is not None else \
                 dict(dev, frus=[(int(i), h) for i, h in dev['frus']])
@@ -706,7 +709,7 @@ def run(ctx):
 
     def go(dev, op, tag):
         out, trace = one_case(ctx, drv, dev, op, shipped)
-        if tag != 'large' and (len(trace) <= 40 or hrng.random() < 0.3):
+        if tag != 'large' and (len(trace) <= 30 or hrng.random() < (0.15 if quick else 0.3)):
             # the same case as SECOND operation of an Ipmi object that did something else before
             history_case(ctx, drv, dev, [{'op': _prior_op(hrng, dev)}, {'op': op}], shipped, 'single-case-as-second-operation')
         ctx.count('op:' + op[0])
@@ -801,7 +804,7 @@ def run(ctx):
     for rep in range(1 if quick else 6):
         for tag, dev, steps in directed_histories(hrng, wl):
             history_case(ctx, drv, dev, steps, shipped, tag)
-    for _ in range(250 if quick else 5000):
+    for _ in range(200 if quick else 5000):
         dev, steps = gen_history(hrng, wl)
         history_case(ctx, drv, dev, steps, shipped, 'random')
         if ctx.time_left() < 15:
